@@ -106,11 +106,11 @@ def replyJ : Reply → J
   | .flowRemoved f r => J.mk [("t", J.str "flow_removed"), ("prio", J.ofNat f.priority), ("cookie", J.ofNat f.cookie), ("reason", J.ofNat r)]
 
 def errName : Err → String
-  | .key => "KeyError" | .name => "NameError" | .attr => "AttributeError" | .runtime => "RuntimeError" | .struct => "error" | .unmodelled => "unmodelled"
+  | .key => "KeyError" | .name => "NameError" | .attr => "AttributeError" | .runtime => "RuntimeError" | .struct _ => "error" | .unmodelled => "unmodelled"
 
 def groupJ : Except Err (List Reply) → J
   | .ok o => J.mk [("out", J.arr (o.map replyJ))]
-  | .error e => J.mk [("fail", J.str (errName e))]
+  | .error e => J.mk [("fail", J.str (errName e)), ("sent", J.ofNat (match e with | .struct k => k | _ => 0))]
 
 def finalJ (s : SwitchState) : J :=
   J.mk [("config", J.ofNats [s.configFlags, s.missSendLen]), ("hello", J.bool s.hasSentHello),
